@@ -340,6 +340,8 @@ pub async fn run_server(w: Rc<World>, plan: Rc<Plan>) {
 
 pub fn start_senders(w: &Rc<World>, plan: &Rc<Plan>, sink: v5::MqttSink) {
     for (sidx, ops) in plan.senders.iter().enumerate() {
+        let slot = w.add_sender(ops.len());
+        debug_assert_eq!(slot, sidx);
         let (w, sink, ops) = (w.clone(), sink.clone(), ops.clone());
         ntex_util::spawn(sender_task(w, sidx, sink, ops));
     }
@@ -378,12 +380,14 @@ async fn sender_task(w: Rc<World>, sidx: usize, sink: v5::MqttSink, ops: Vec<App
                 Either::Left(Err(e)) => {
                     w.sender_op_done(sidx);
                     w.ev(Ev::OpDone { sender: sidx, op: opi, res: OpResult::Err(err_str(&e)) });
+                    w.sender_skip_next(sidx);
                     continue;
                 }
                 Either::Right(()) => {
                     w.ev(Ev::OpCancel { sender: sidx, op: opi });
                     w.sender_op_done(sidx);
                     w.ev(Ev::OpDone { sender: sidx, op: opi, res: OpResult::Cancelled });
+                    w.sender_skip_next(sidx);
                     continue;
                 }
             };
@@ -631,6 +635,8 @@ pub async fn client_proto_handler(
             let outcome = crate::app_v3::gated_publish!(w, 0, seen, p);
             match outcome {
                 Outcome::Ok => Ok(p.ack(codec::PublishAckReason::Success)),
+                // a failure of a QoS 0 message cannot be expressed as a negative acknowledgement
+                Outcome::Neg(_) if p.packet().packet_id.is_none() => Err(AppErr::Fatal),
                 Outcome::Neg(c) => match codec::PublishAckReason::try_from(c) {
                     Ok(rc) => Ok(p.ack(rc)),
                     Err(_) => Err(AppErr::Fatal),
